@@ -56,7 +56,7 @@ int main(void)
 #ifdef O_OPS
         { static const u32 chosen[NOPS] = O_OPS; ops[k] = chosen[k]; }
 #else
-        ops[k] = in_range(0, 6);
+        ops[k] = in_range(0, 7);
 #endif
         u32 s = in_range(0, 1), val = in_range(0, 100);
         args[k] = s | (val << 1);
@@ -67,6 +67,7 @@ int main(void)
         case 4: has[s] = 1; v[s] = (i32)val; break;
         case 5: has[s] = 0; break;
         case 6: break;
+        case 7: break;   /* self-assignment changes nothing */
         }
         for (int t = 0; t < 2; ++t) { ehas[2 * k + t] = has[t]; eval_[2 * k + t] = has[t] ? v[t] : -1; }
         eraise[k] = !has[s];
